@@ -42,9 +42,12 @@ structure Domain where
 
 def regular (g : MG Name) : List Name := g.nodes.filter (fun n => !isTnode n)
 
-/-- names of `expression.get_variables()` for a probability leaf -/
-def exprVarNames : Expr → List Name
-  | .prob _ c p => (c ++ p).flatMap fun v => v.name :: v.ivs.map (·.name)
+/-- `expression.get_variables()` for a probability leaf (the distributions of `domain_data` are
+`PopulationProbability` objects): every child and parent, and the `Intervention` objects of its subscripts.  The
+validators test `v in expression.get_variables()` for the graph vertices `v`, which are plain `Variable` objects: a
+vertex that occurs only as a subscript or only as a counterfactual variable does not count -/
+def exprVars : Expr → List Var
+  | .prob _ c p => (c ++ p).flatMap Var.iterVars
   | _ => []
 
 def popTag : Expr → Option Name
@@ -62,7 +65,7 @@ def vErr : Except Err Unit := .error (.invalidInput "ValueError")
 /-- the per-domain value checks shared by both validators -/
 def validateDomain (target : MG Name) (d : Domain) : Except Err Unit :=
   if !seteq' d.topo d.graph.nodes then vErr
-  else if !(regular d.graph).all (· ∈ exprVarNames d.pop) then vErr
+  else if !(regular d.graph).all (fun n => Ctf.mem' (Var.plain n) (exprVars d.pop)) then vErr
   else if !d.policy.all (· ∈ regular d.graph) then vErr
   else if !d.graph.isAcyclic then vErr
   else match validTopoList d.topo d.graph with
